@@ -92,9 +92,9 @@ var DefaultNoop = []string{
 
 func DefaultConfig() Config {
 	return Config{
-		Unwind:   64,
+		Unwind:   4096,
 		MaxSteps: 5_000_000,
-		MaxDepth: 400,
+		MaxDepth: 20000,
 		MaxPaths: 200_000,
 		Delays:   0,
 		ConcCap:  16,
